@@ -111,6 +111,8 @@ def correspond(ctx, corr, model_ok):
         corr.oracle_failures.extend(source_oracle(case, r))
         corr.count('source %s cancelled after %s iterations' % (case[0], 'no' if case[5] == 0 else '1-3' if case[5] < 4 else '4+'))
         corr.evaluations += 1
+    corr.oracle_failures.extend(routed_oracle())
+    corr.count('routed responder (future / task) cancelled', 4)
     if model_ok:
         E.trace_corr(corr, runs, KEEP, KEYS, 'C09 cancellation projection vs model/Endpoint.v')
     corr.rule = ('legal random histories with cancellation by either side at every moment (60% of local cancels share '
@@ -129,11 +131,14 @@ def search(ctx, budget):
             found.extend(f for f in oracle(sc))
         for case in source_cases(ctx, 60):
             found.extend(source_oracle(case, run_cancel_source(*case)))
+        found.extend(routed_oracle())
     return found
 
 
 def replay(obj):
     case = obj.get('case') or obj
+    if 'routed_case' in case:
+        return bool(routed_oracle())
     if 'source_case' in case:
         c = tuple(case['source_case'])
         return bool(source_oracle(c, run_cancel_source(*c)))
@@ -271,4 +276,80 @@ def source_oracle(case, r):
         out.append(dict(base, what='exception-escaped-on-cancel', detail=r['escaped'][:2]))
     if r['registered'] and not channel:
         out.append(dict(base, what='stream-still-registered-after-cancel'))
+    return out
+
+
+# ---------------------------------------------------------------------------------------------
+# the routed responder: a route that answers with a still-pending Task / Future is cancelled by CANCEL
+
+def run_routed_cancel(kind, lenreq):
+    """server = RoutingRequestHandler over a RequestRouter; route 'slow' returns a pending Future (kind='future') or a
+    Task (kind='task'); the peer sends the request, CANCEL, and then a request for route 'fast' on another stream."""
+    import asyncio
+    from harness import sim, frames as FR
+    from rsocket.rsocket_server import RSocketServer
+    from rsocket.routing.request_router import RequestRouter
+    from rsocket.routing.routing_request_handler import RoutingRequestHandler
+    from rsocket.extensions.helpers import composite, route
+    from rsocket.helpers import create_response
+    loop = sim.new_loop()
+    T = sim.make_transport_class()
+    t = T(lenreq=lenreq)
+    router = RequestRouter()
+    state = {'started': False, 'cancelled': False, 'finished': False}
+
+    async def work():
+        state['started'] = True
+        try:
+            await asyncio.sleep(1000)
+            state['finished'] = True
+            from rsocket.payload import Payload
+            return Payload(b'slow answer')
+        except asyncio.CancelledError:
+            state['cancelled'] = True
+            raise
+
+    @router.response('slow')
+    async def slow():
+        if kind == 'task':
+            return asyncio.ensure_future(work())
+        f = asyncio.get_event_loop().create_future()
+        state['fut'] = f
+        return f
+
+    @router.response('fast')
+    async def fast():
+        return create_response(b'fast answer')
+    try:
+        loop.run(lambda: RSocketServer(t, handler_factory=lambda: RoutingRequestHandler(router)))
+        loop.settle()
+        t.inject_frame(FR.build({'t': 'Setup', 'sid': 0, 'ign': False, 'lease': False, 'major': 1, 'minor': 0, 'ka': 100000,
+                                 'ml': 500000, 'resume': None, 'mdenc': b'message/x.rsocket.composite-metadata.v0',
+                                 'denc': b'application/octet-stream', 'md': b'', 'd': b''}).serialize())
+        loop.settle()
+        t.inject_frame(FR.build({'t': 'RequestResponse', 'sid': 1, 'ign': False, 'follows': False,
+                                 'md': bytes(composite(route('slow'))), 'd': b'q'}).serialize())
+        for _ in range(3):
+            loop.tick()
+        t.inject_frame(FR.build({'t': 'Cancel', 'sid': 1, 'ign': False}).serialize())
+        t.inject_frame(FR.build({'t': 'RequestResponse', 'sid': 3, 'ign': False, 'follows': False,
+                                 'md': bytes(composite(route('fast'))), 'd': b'q2'}).serialize())
+        loop.settle()
+        wire = [sim.parse_sent(b) for b in t.sent]
+        fut = state.get('fut')
+        return {'producer_cancelled': state['cancelled'] if kind == 'task' else (fut is not None and fut.cancelled()),
+                'frames_on_cancelled_stream': [w['t'] for w in wire if w.get('sid') == 1],
+                'fast_answered': any(w.get('sid') == 3 and w['t'] == 'Payload' and w.get('d') == b'fast answer' for w in wire),
+                'escaped': list(loop.exceptions)[:2]}
+    finally:
+        loop.finish()
+
+
+def routed_oracle():
+    out = []
+    for kind in ('future', 'task'):
+        for lenreq in (True, False):
+            r = run_routed_cancel(kind, lenreq)
+            if not r['producer_cancelled'] or r['frames_on_cancelled_stream'] or not r['fast_answered'] or r['escaped']:
+                out.append({'what': 'routed-responder-not-cancelled', 'routed_case': [kind, lenreq], 'detail': repr(r)[:300]})
     return out
